@@ -116,6 +116,18 @@ class Frontend:
         self._funcs[k] = fi
         return fi
 
+    def lemma_func(self, c) -> FuncInfo:
+        import importlib
+        import textwrap
+        params = ", ".join(c.lemma_params)
+        src = "def %s(%s):\n%s\n" % (c.qualname.replace("-", "_").replace(".", "_"), params,
+                                     textwrap.indent(textwrap.dedent(c.lemma_src).strip("\n"), "    "))
+        node = ast.parse(src).body[0]
+        module = importlib.import_module(c.lemma_module)
+        fi = FuncInfo(module, c.qualname, node, "<lemma>", None)
+        fi.src = src
+        return fi
+
     def func_of_object(self, fobj, setter=False) -> FuncInfo | None:
         """Locate the FuncInfo of a real function object (unwrapping decorators)."""
         try:
